@@ -1156,10 +1156,8 @@ parser! {
     rule configuration_name() -> Id = identifier()
     rule resource_type_name() -> Id = identifier()
     // TODO this is missing some
-    pub rule configuration_declaration() -> ConfigurationDeclaration = tok(TokenType::Configuration) _ n:configuration_name() _ g:global_var_declarations()? _ r:resource_declaration() _ i:instance_specific_initializations()? _ tok(TokenType::EndConfiguration) {
+    pub rule configuration_declaration() -> ConfigurationDeclaration = tok(TokenType::Configuration) _ n:configuration_name() _ g:global_var_declarations()? _ r:(r:resource_declaration() _ { r })+ i:instance_specific_initializations()? _ tok(TokenType::EndConfiguration) {
       let g = g.unwrap_or_default();
-      // TODO this should really be multiple items
-      let r = vec![r];
 
       let mut fb_inits: Vec<FunctionBlockInit> = Vec::new();
       let mut located_var_inits: Vec<LocatedVarInit> = Vec::new();
